@@ -186,8 +186,13 @@ def native_replay(contract: Contract, case, env, rng=None):
         out = contract.call_native(S, case, inp) if hasattr(contract, "call_native") else contract.call(S, case, inp)
     except (EngineError,):
         raise
+    except PreconditionFailed as e:
+        return None, f"precondition not met by the concrete input: {e}", S
     except Exception as e:
         out = Raised(e)
+    if isinstance(out, Raised) and isinstance(out.exc, PreconditionFailed):
+        # a precondition stated inside a stub (e.g. on the trial points of the optimiser stub)
+        return None, f"precondition not met by the concrete input: {out.exc}", S
     res = []
     for name, cond in contract.ensures(S, case, inp, out):
         try:
@@ -258,9 +263,24 @@ def agree(symv, concv, env, cache, where="out"):
     return ok, f"{where}: {symv!r} vs {concv!r}"
 
 
+def _const_names(terms):
+    seen, out, todo = set(), set(), list(terms)
+    while todo:
+        t = todo.pop()
+        if t.get_id() in seen:
+            continue
+        seen.add(t.get_id())
+        if z3.is_const(t) and t.decl().kind() == z3.Z3_OP_UNINTERPRETED:
+            out.add(t.decl().name())
+        todo.extend(t.children())
+    return out
+
+
 def sample_env(symbols, pre, rng, tries=30):
     """A concrete assignment of the input symbols that satisfies the preconditions."""
-    names = [n for n, s in symbols.items() if type(s) is SymReal and "!" not in n]
+    in_pre = _const_names(pre)
+    # stub-introduced symbols ("!") are sampled only when a precondition constrains them
+    names = [n for n, s in symbols.items() if type(s) is SymReal and ("!" not in n or n in in_pre)]
     bools = [n for n, s in symbols.items() if type(s) is SymBool]
     for _ in range(tries):
         env = {n: round(rng.uniform(-4, 4), 2) for n in names}
@@ -457,6 +477,20 @@ def run_job(job):
                 }
                 if v.smt2 and len(res["samples"]) < 2 and v.status == "proved":
                     res["samples"].append({"obligation": f"{full}[{cid}]@path{pi}", "verdict": f"unsat ({v.backend})", "smt2": v.smt2[:3000]})
+                if v.status == "unknown" and not isinstance(cond, (bool, np.bool_)):
+                    # the solvers could not decide: look for a failing input of exactly this obligation on the real
+                    # code (sampled inputs satisfying the preconditions).  Found -> a violation with its input;
+                    # not found -> still undecided (exit 2), never a violation.
+                    viol = _refute_natively(contract, case, cid, S, p, pi, v, oname, full, rng)
+                    if viol is not None:
+                        v.status = "refuted"
+                        v.backend = "native-sampling"
+                        entry["status"], entry["backend"] = "refuted", "native-sampling"
+                        refuted_names.add(full)
+                        entry["replay"] = viol
+                        res["violations"].append(viol)
+                        res["obligations"].append(entry)
+                        continue
                 if v.status == "refuted":
                     refuted_names.add(full)
                     viol = _handle_refuted(contract, case, cid, S, p, pi, hyps, ct if not isinstance(cond, (bool, np.bool_)) else None, v, oname, full, rng, timeout)
@@ -697,6 +731,37 @@ def _handle_refuted(contract, case, cid, S, p, pi, hyps, goal, v, oname, full, r
     if v.model is not None:
         viol["counter_model"] = _model_env(v.model, S.symbols)
     return viol
+
+
+def _refute_natively(contract, case, cid, S, p, pi, v, oname, full, rng, n=8):
+    pre = p.pc[: p.ghost.get("_n_pre", 0)]
+    for k in range(n):
+        e = sample_env(S.symbols, pre, rng, tries=5)
+        if e is None:
+            continue
+        env = {n_: str(Fraction(val).limit_denominator(10**6)) if isfloat(val) else val for n_, val in e.items()}
+        try:
+            r, detail, CS = native_replay(contract, case, env)
+        except Exception:
+            continue
+        if r is None:
+            continue
+        failed = [n_ for n_, ok in r if not ok]
+        if oname in failed:
+            return {
+                "property": contract.prop,
+                "obligation": full,
+                "case": cid,
+                "path": pi,
+                "function": contract.target,
+                "solver": f"{v.backend}: unknown ({v.reason}); failing input found by sampling the preconditions",
+                "reproduced": True,
+                "env": env,
+                "native": detail,
+                "failed_natively": failed,
+                "attempts": [{"input": f"seeded#{k}", "failed_obligations": failed}],
+            }
+    return None
 
 
 def _agreement(contract, case, paths, rng, res):
